@@ -259,7 +259,8 @@ Definition lever (c : ctx) (x y : vec) (m : mach) : vres mach :=
   let sf := (z0 - nthq x 0) / den in
   if negb (qltb c_lo sf && qltb sf c_hi) then VErr VInfeasible m else
   let sf := if qltb 1 sf then 1 else if qltb sf 0 then 0 else sf in
-  let v := vscale (Fmol c * sf) (fit (length (idx c)) y) in
+  (* v = F_mol * split_frac * y;  mask = v > mol_vle;  v[mask] = mol_vle[mask]   (clip added by /repo dd55412) *)
+  let v := capv (vscale (Fmol c * sf) (fit (length (idx c)) y)) (molv c) in
   VOk (mset m (set_flows c v (ms m))).
 
 (* set_Tx (bubble = true, spec_T = true), set_Px, set_Ty, set_Py (after pending_fixes/C04_2: the
